@@ -90,7 +90,9 @@ KINDS = list(gen.ELEMENTWISE) + ["CubaLIF", "Affine", "Linear", "Conv1d", "Conv2
 
 
 def run(ctx):
+    from core import run_graph_ops
     rng = ctx.rng
+    cases, obs, reqs = [], [], []
     tmpdir = tempfile.mkdtemp(prefix="nirverif-c02-", dir="/var/tmp")
     try:
         combos = list(itertools.product(KINDS, DTYPES, range(0, 6)))
@@ -137,6 +139,10 @@ def run(ctx):
             before = {f: (np.asarray(getattr(node, f)).dtype, np.asarray(getattr(node, f)).shape,
                           np.ascontiguousarray(getattr(node, f)).tobytes()) for f in list(shapes) + (["w_in"] if kind == "CubaLIF" else [])}
             status, res = roundtrip(graph, target, tmpdir)
+            if len(cases) < 120:
+                c2 = {"op": "graph", "graph": g, "ops": ["file_rt"]}
+                st2, _ = run_graph_ops(g, ["file_rt"])
+                cases.append(c2); obs.append({"steps": st2}); reqs.append(c2)
             if status == "write-rejected":
                 ctx.count("write_rejected"); continue
             if status == "read-failed":
@@ -156,6 +162,7 @@ def run(ctx):
                                 observed={"dtype": str(a.dtype), "shape": list(a.shape)},
                                 required={"dtype": str(d0), "shape": list(s0)})
                     break
+        ctx.compare("files", cases, obs, reqs)
     finally:
         import shutil
         shutil.rmtree(tmpdir, ignore_errors=True)
